@@ -22,8 +22,9 @@ TRACED = {('hszinc/grid_filter.py', '_filter_function'), ('hszinc/grid_filter.py
           ('hszinc/grid_filter.py', '__init__'), ('hszinc/grid_filter.py', 'get'),
           ('hszinc/grid_filter.py', '__del__'), ('hszinc/grid.py', 'filter')}
 NAME_RE = re.compile(r'^_gen_hsfilter_(\d+)$')
-# filters of the concurrent scenarios: distinct tags, two of them differing only by case
-FILTERS = {1: 'ta', 2: 'tb', 3: 'tA', 4: 'tc'}
+# filters of the concurrent scenarios: distinct tags, two of them differing only by case; each carries a literal
+# of its own (literals travel from the parser to the generated function by another route than the names do)
+FILTERS = {1: 'ta and x == 1', 2: 'tb and x == 2', 3: 'tA and x == 3', 4: 'tc and x == 4'}
 
 
 class World(object):
@@ -59,11 +60,11 @@ class World(object):
         g = self.hs.Grid(columns=[('id', []), ('x', [])])
         rows = {}
         for fid, text in sorted(filters.items()):
-            r = {'id': 'r%d' % fid, text: self.hs.MARKER, 'x': fid}
+            r = {'id': 'r%d' % fid, text.split()[0]: self.hs.MARKER, 'x': fid}
             rows[fid] = r
             g.append(r)
         g.append({'id': 'none', 'x': 0})
-        self.tags = {text: fid for fid, text in filters.items()}
+        self.tags = {text.split()[0]: fid for fid, text in filters.items()}
         return g, rows
 
     def consts(self, code):
